@@ -614,6 +614,9 @@ func (e *env) runDir(c dirCase) {
 	if c.RootKind == "dir" {
 		class = c.Op
 	}
+	if c.Op == "cli" {
+		class = "cli-" + class
+	}
 	switch c.Op {
 	case "walk":
 		resp := e.drv.call(map[string]any{"op": "walk", "dir": rootPath, "ignore_dirs": c.IgnoreDirs, "size_max": c.SizeMax})
@@ -643,11 +646,34 @@ func (e *env) runDir(c dirCase) {
 			impl = joinOrDash(parts)
 		}
 		e.w.Emit(gen.Case{In: in, Impl: impl, Go: goV, Key: key, Class: class, Nontrivial: len(resp.Files) >= 2, Detail: detail})
-	case "dir":
+	case "dir", "cli":
 		idx := e.tmp("idx")
 		defer os.RemoveAll(idx)
-		resp := e.drv.call(map[string]any{"op": "index", "dir": rootPath, "index_dir": idx, "ignore_dirs": c.IgnoreDirs,
-			"size_max": c.SizeMax, "name": "repo", "large_files": c.LargeFiles})
+		var resp driverResp
+		if c.Op == "cli" {
+			// the command itself: flag parsing (-ignore_dirs with padding and empty items, -file_limit, -large_file), main()
+			padded := []string{" "}
+			for _, d := range c.IgnoreDirs {
+				padded = append(padded, " "+d+"\t")
+			}
+			args := []string{"-index", idx, "-ignore_dirs", strings.Join(padded, ","), "-file_limit", fmt.Sprint(c.SizeMax), "-disable_ctags"}
+			for _, lf := range c.LargeFiles {
+				args = append(args, "-large_file", lf)
+			}
+			cmd := exec.Command(e.drv.bin, append(args, rootPath)...)
+			cmd.Env = append(os.Environ(), "ZOEKT_VERIF_DRIVER=")
+			out, err := cmd.CombinedOutput()
+			if err != nil {
+				if strings.Contains(string(out), "panic:") || strings.Contains(string(out), "SIGSEGV") {
+					resp.Panic = string(out)
+				} else {
+					resp.Err = fmt.Sprintf("%v: %s", err, lastLine(string(out)))
+				}
+			}
+		} else {
+			resp = e.drv.call(map[string]any{"op": "index", "dir": rootPath, "index_dir": idx, "ignore_dirs": c.IgnoreDirs,
+				"size_max": c.SizeMax, "name": "repo", "large_files": c.LargeFiles})
+		}
 		// Options.IgnoreSizeMax (doublestar) is a parameter of model and oracle: the names it whitelists
 		allow := map[string]bool{}
 		var allowNames []string
@@ -702,6 +728,14 @@ func (e *env) runDir(c dirCase) {
 		}
 		e.w.Emit(gen.Case{In: in, Impl: cls + " " + docsS, Go: goV, Key: key, Class: "e2e-" + class, Nontrivial: len(impl) >= 2, Detail: detail})
 	}
+}
+
+func lastLine(s string) string {
+	s = strings.TrimSpace(s)
+	if i := strings.LastIndexByte(s, '\n'); i >= 0 {
+		return s[i+1:]
+	}
+	return s
 }
 
 func firstLine(s string) string {
@@ -1108,7 +1142,7 @@ func (e *env) runDetail(raw json.RawMessage) {
 		panic(err)
 	}
 	switch probe.Op {
-	case "walk", "dir":
+	case "walk", "dir", "cli":
 		var c dirCase
 		if err := json.Unmarshal(raw, &c); err != nil {
 			panic(err)
@@ -1232,6 +1266,10 @@ func main() {
 			c.LargeFiles = gen.Pick(r, [][]string{{"**"}, {"*", "**/*.go"}, {"**", "!**/*.md"}, {"**/*.txt", "*"}})
 		}
 		e.runDir(c)
+	}
+	// the command line itself (flag parsing, main): the same oracle and model
+	for i := 0; i < f.N(12, 120); i++ {
+		e.runDir(genDirCase(r, "cli"))
 	}
 	for i := 0; i < f.N(60, 500); i++ {
 		e.runArch(genArchCase(r, "arch"))
